@@ -77,12 +77,30 @@ func obPanicRun(c *rules.Ctx, id string) {
 	c.PanicScan(ob, "run-entry", runRoots(c, ob), runExceptions)
 }
 
+var errRels = map[string]bool{relInterp: true, "": true}
+
+var errExempt = map[string]string{}
+
+func obErrNotDropped(c *rules.Ctx, id string) {
+	ob := c.R.Ob(id, "errflow/E1", "no error returned by a call on the run path is dropped: it is returned, or tested with the failure edge returning it (possibly wrapped), or accumulated", 25)
+	c.ErrNotDropped(ob, errRels, errExempt)
+}
+
+func obErrImpliesZero(c *rules.Ctx, id string) {
+	ob := c.R.Ob(id, "errflow/E2", "a return with a possibly non-nil error carries only zero values in its other results", 20)
+	c.ErrImpliesZero(ob, errRels)
+}
+
 func init() {
 	Registry["C12"] = &Spec{
 		Explanation: "",
 		Assumptions: []string{A1, A3, A4},
 		Run: func(c *rules.Ctx) {
 			obPanicRun(c, "C12.1")
+			ob2 := c.R.Ob("C12.2", "sumcheck/S1", "every type switch over a closed sum on the run path is exhaustive (a panicking default is unreachable, no kind silently ignored)", 15)
+			c.S1(ob2, selPkgs(map[string]bool{relInterp: true}, nil, relInterp))
+			obErrNotDropped(c, "C12.3a")
+			obErrImpliesZero(c, "C12.3b")
 		},
 	}
 }
